@@ -1,0 +1,9 @@
+//go:build verif
+
+package ast
+
+// VerifRegexParts exposes the pattern and the flag bit mask of n to the
+// verification harness (build tag verif only).
+func (n *RegexNode) VerifRegexParts() (string, uint16) {
+	return n.pattern, uint16(n.flags)
+}
